@@ -8,6 +8,7 @@ import (
 	"net"
 	"os"
 	"strings"
+	"sync/atomic"
 	"time"
 )
 
@@ -46,7 +47,21 @@ func Dial(path string, text bool) (*Client, error) {
 	if err != nil {
 		return nil, err
 	}
-	return &Client{Text: text, Conn: c, R: bufio.NewReaderSize(c, 1<<16), Timeout: 10 * time.Second, barrier: 0xBA000000}, nil
+	return &Client{Text: text, Conn: c, R: bufio.NewReaderSize(c, 1<<16), Timeout: DefaultTimeout(), barrier: 0xBA000000}, nil
+}
+
+// timeouts counts the replies this process has waited for in vain.
+var timeouts int32
+
+// DefaultTimeout is how long a client waits for a reply unless a driver sets its own deadline: a
+// minute - a machine under heavy load can stall a process for seconds, and an answer that is merely
+// late is not a missing answer. Once three replies have not come at all the code under test does
+// hang, and every further wait is cut to three seconds so that the run still ends.
+func DefaultTimeout() time.Duration {
+	if atomic.LoadInt32(&timeouts) >= 3 {
+		return 3 * time.Second
+	}
+	return 60 * time.Second
 }
 
 func (c *Client) Close() { c.Conn.Close() }
@@ -119,6 +134,7 @@ func (c *Client) Do(cmd Command) Outcome {
 			switch {
 			case isTimeout(err):
 				out.Class = "timeout"
+				atomic.AddInt32(&timeouts, 1)
 			case errors.Is(err, ErrMalformed):
 				out.Class = "malformed"
 				out.Anomalies = append(out.Anomalies, err.Error())
